@@ -9,7 +9,7 @@
                line by the suppression comment (inline)
        do / end / blank
        C       the suppression comment on its own line(s)
-   There is exactly one suppression comment: kind next (`disable-next-line`), line (`disable-line`) or
+   There is exactly one suppression comment (two in the TwoComments family, see below): kind next (`disable-next-line`), line (`disable-line`) or
    block (`disable`), with code list all (none written) / X / Y / U / XU, where U is a name that is not a
    diagnostic code of this analyzer (a code of another tool, a typo): a comment WITH a code list never
    suppresses a code that is not listed, so `: U` suppresses nothing and `: X, U` exactly X.
@@ -30,6 +30,14 @@
    expected reported/suppressed bit of every diagnostic row; the harness replays the layout through
    the real diagnose_file with the comment and with the comment neutralised.
 
+   Two comments (TwoComments = TRUE, second seeded round): layouts with exactly TWO suppression comments of any
+   two kinds / code lists all, X, Y / inline or own-line, over a reduced row alphabet (X diagnostics at column 0 only, no doc lines,
+   an own-line comment never directly below another comment: consecutive comment lines are ONE comment in the
+   syntax tree).  The property text gives every comment its own scope, so a diagnostic is suppressed iff SOME
+   comment suppresses it: Stated / Coded are the disjunction over the comments of the per-comment readings
+   StatedBy / CodedBy -- in particular a comment never shortens or widens the scope of another one, whatever the
+   order in which they are written.
+
    ---- Part 2: configuration precedence (C20) ------------------------------------------------
    see the second half of the module.  *)
 EXTENDS Naturals, Sequences, FiniteSets, TLC, Json
@@ -40,7 +48,8 @@ CONSTANTS MaxRows,     \* bound on generated rows (closing `end`s are added)
           Overlap,     \* "touching" (pinned tree) | "proper"
           EmptyBlockOwner, \* owner block of a `disable` comment that is alone in its block: "parent" (the
                        \* parser attaches trivia of a statement-less block to the enclosing statement) | "self"
-          CheckAgree   \* TRUE: CodedEqStated is enforced as an invariant
+          CheckAgree,  \* TRUE: CodedEqStated is enforced as an invariant
+          TwoComments  \* TRUE: the family of layouts with exactly two suppression comments (reduced alphabets)
 
 VARIABLES rows, depth, hasC,   \* part 1: the layout under construction
           crow                 \* part 2: one configuration row (NoRow while part 1 runs)
@@ -63,13 +72,23 @@ IsDiag(r) == r.k \in {"X", "Y"}
 
 Init == rows = <<>> /\ depth = 0 /\ hasC = FALSE /\ crow = NoRow
 
-AddPlain == \E r \in DiagRows({NoC}) \cup {Row("blank", 0, NoC)} :
+\* ---- number of comments; the reduced alphabets of the two-comment family
+NumC(rs) == Cardinality({i \in 1..Len(rs) : rs[i].cm # NoC})
+MaxC == IF TwoComments THEN 2 ELSE 1
+LastHasC(rs) == Len(rs) > 0 /\ rs[Len(rs)].cm # NoC
+Comments2 == {[kind |-> k, codes |-> c, pre |-> 0, post |-> 0] : k \in Kinds, c \in {"all", "X", "Y"}}
+Col0(S) == {r \in S : r.ind = 0 /\ r.k = "X"}     \* diagnostics of code X at column 0; Y only as "another code" in lists
+PlainRows == IF TwoComments THEN Col0(DiagRows({NoC})) ELSE DiagRows({NoC})
+InlineRows == IF TwoComments THEN Col0(DiagRows(Comments2)) ELSE DiagRows(InlineComments)
+OwnRows == IF TwoComments THEN Comments2 ELSE OwnComments
+
+AddPlain == \E r \in PlainRows \cup {Row("blank", 0, NoC)} :
               rows' = Append(rows, r) /\ UNCHANGED <<depth, hasC>>
 AddDo == depth < MaxDepth /\ rows' = Append(rows, Row("do", 0, NoC)) /\ depth' = depth + 1 /\ UNCHANGED hasC
 AddEnd == depth > 0 /\ rows' = Append(rows, Row("end", 0, NoC)) /\ depth' = depth - 1 /\ UNCHANGED hasC
-AddInline == ~hasC /\ \E r \in DiagRows(InlineComments) :
+AddInline == NumC(rows) < MaxC /\ \E r \in InlineRows :
                rows' = Append(rows, r) /\ hasC' = TRUE /\ UNCHANGED depth
-AddOwn == ~hasC /\ \E cm \in OwnComments :
+AddOwn == NumC(rows) < MaxC /\ ~LastHasC(rows) /\ \E cm \in OwnRows :
             rows' = Append(rows, Row("C", 0, cm)) /\ hasC' = TRUE /\ UNCHANGED depth
 
 Next == Len(rows) < MaxRows /\ (AddPlain \/ AddDo \/ AddEnd \/ AddInline \/ AddOwn) /\ UNCHANGED crow
@@ -80,9 +99,8 @@ Layout == rows \o [i \in 1..depth |-> Row("end", 0, NoC)]
 \* ---------------------------------------------------------------------------------------------
 \* geometry shared by both readings
 \* ---------------------------------------------------------------------------------------------
-CRow(L) == CHOOSE i \in 1..Len(L) : L[i].cm # NoC
-HasComment(L) == \E i \in 1..Len(L) : L[i].cm # NoC
-Cm(L) == L[CRow(L)].cm
+CRows(L) == {i \in 1..Len(L) : L[i].cm # NoC}
+HasComment(L) == CRows(L) # {}
 CodeOf(r) == r.k   \* "X" or "Y"
 CodeMatch(cm, code) == cm.codes = "all" \/ code \in Listed(cm.codes)
 
@@ -103,12 +121,13 @@ InBlock(L, d, r) == IF d = 0 THEN TRUE ELSE d < r /\ r < EndOf(L, d)
 \* ---------------------------------------------------------------------------------------------
 \* Stated: the property text
 \* ---------------------------------------------------------------------------------------------
-Stated(L, r) ==
-  LET cm == Cm(L) c == CRow(L) IN
+StatedBy(L, c, r) ==
+  LET cm == L[c].cm IN
   /\ CodeMatch(cm, CodeOf(L[r]))
   /\ CASE cm.kind = "next" -> r = c + 1
        [] cm.kind = "line" -> r = c
        [] cm.kind = "block" -> InBlock(L, EnclosingDo(L, c), r)
+Stated(L, r) == \E c \in CRows(L) : StatedBy(L, c, r)
 
 \* ---------------------------------------------------------------------------------------------
 \* Coded: ranges over <<row, column>> positions
@@ -124,29 +143,32 @@ Intersects(a, b) ==   \* a, b = <<start, end>>
 \* Known finding, keyed by mechanism: the comment's block contains no statement (only the comment and blank
 \* rows); the syntax tree then has an empty Block node and the comment hangs off the enclosing statement, so
 \* `comment.ancestors::<LuaBlock>()` finds the PARENT block and `disable` leaks into it.
-KF_CommentOnlyBlock(L) ==
-  LET c == CRow(L) d == EnclosingDo(L, c) IN
-  /\ Cm(L).kind = "block" /\ d # 0
+KF_CommentOnlyBlockAt(L, c) ==
+  LET d == EnclosingDo(L, c) IN
+  /\ L[c].cm.kind = "block" /\ d # 0
   /\ \A i \in (d + 1)..(EndOf(L, d) - 1) : L[i].k \in {"C", "blank"}
-OwnerDo(L) == LET d == EnclosingDo(L, CRow(L)) IN
-              IF EmptyBlockOwner = "parent" /\ KF_CommentOnlyBlock(L) THEN EnclosingDo(L, d) ELSE d
+KF_CommentOnlyBlock(L) == \E c \in CRows(L) : KF_CommentOnlyBlockAt(L, c)
+OwnerDo(L, c) == LET d == EnclosingDo(L, c) IN
+                 IF EmptyBlockOwner = "parent" /\ KF_CommentOnlyBlockAt(L, c) THEN EnclosingDo(L, d) ELSE d
 
 DiagLen(r) == IF r.k = "X" THEN 3 ELSE 4       \* `foo`, `depr`
 DiagRange(L, r) == <<<<r, L[r].ind>>, <<r, L[r].ind + DiagLen(L[r])>>>>
 \* column at which the comment starts on its row (inline: after `foo() ` / `depr() `)
-CmCol(L) == LET c == CRow(L) IN IF L[c].k = "C" THEN 0 ELSE L[c].ind + DiagLen(L[c]) + 3
+CmCol(L, c) == IF L[c].k = "C" THEN 0 ELSE L[c].ind + DiagLen(L[c]) + 3
 BIGROW == 1000
-ActionRange(L) ==      \* <<start, end>> or <<>> when the implementation creates no ranged action
-  LET cm == Cm(L) c == CRow(L) IN
-  CASE cm.kind = "next" -> <<<<c, CmCol(L)>>, <<c + 2, 0>>>>
+ActionRange(L, c) ==      \* <<start, end>> or <<>> when the implementation creates no ranged action
+  LET cm == L[c].cm IN
+  CASE cm.kind = "next" -> <<<<c, CmCol(L, c)>>, <<c + 2, 0>>>>
     [] cm.kind = "line" -> <<<<c, 0>>, <<c + 1, 0>>>>
     [] cm.kind = "block" ->
-         LET d == OwnerDo(L) IN
+         LET d == OwnerDo(L, c) IN
          IF d = 0 THEN <<<<0, 0>>, <<BIGROW, 0>>>> ELSE <<<<d + 1, 0>>, <<EndOf(L, d), 0>>>>
-Coded(L, r) ==
-  LET cm == Cm(L) IN
+CodedBy(L, c, r) ==
+  LET cm == L[c].cm IN
   /\ CodeMatch(cm, CodeOf(L[r]))
-  /\ Intersects(ActionRange(L), DiagRange(L, r))
+  /\ Intersects(ActionRange(L, c), DiagRange(L, r))
+\* the implementation scans ALL recorded actions of the file (is_file_diagnostic_code_disabled): any match suppresses
+Coded(L, r) == \E c \in CRows(L) : CodedBy(L, c, r)
 
 DiagRowsOf(L) == {r \in 1..Len(L) : IsDiag(L[r])}
 CodedEqStated == (CheckAgree /\ HasComment(Layout)) =>
@@ -166,7 +188,7 @@ RECURSIVE LayoutHash(_, _)
 LayoutHash(L, i) == IF i > Len(L) THEN 0 ELSE (i + 1) * RowHash(L[i]) + LayoutHash(L, i + 1)
 
 CompactRow(r) == <<r.k, r.ind, r.cm.kind, r.cm.codes, r.cm.pre, r.cm.post>>
-Emit == IF hasC /\ DiagRowsOf(Layout) # {} /\ LayoutHash(rows, 1) % EmitMod = 0
+Emit == IF hasC /\ NumC(rows) = MaxC /\ DiagRowsOf(Layout) # {} /\ LayoutHash(rows, 1) % EmitMod = 0
         THEN PrintT(<<"CASE", ToJson([rows |-> [i \in 1..Len(Layout) |-> CompactRow(Layout[i])],
                                       exp |-> {<<r, IF Stated(Layout, r) THEN 1 ELSE 0,
                                                     IF Coded(Layout, r) THEN 1 ELSE 0>> : r \in DiagRowsOf(Layout)},
